@@ -69,8 +69,9 @@ Section Loop.
     ii_gs : GS; ii_before : list N; ii_after : list N; ii_rerun : list N; ii_subs : list (N * SINFO);
   }.
 
-  (* one execution of a node body: (node, input handed to the body, aborted = asked for a rerun) *)
-  Definition event := (N * V * bool)%type.
+  (* one execution of a node body: node, input handed to the body, aborted = asked for a rerun,
+     skipped_pre = the task was submitted without running its pre-handler *)
+  Record event := { ev_key : N; ev_in : V; ev_abort : bool; ev_skip : bool }.
 
   Inductive sres :=
   | Continue (s : lstate)
@@ -101,7 +102,8 @@ Section Loop.
 
   Fixpoint events_of (ts : list task) (rs : list (N * texec)) : list event :=
     match ts, rs with
-    | t :: ts', r :: rs' => (t_key t, t_in t, is_rerun (snd r)) :: events_of ts' rs'
+    | t :: ts', r :: rs' => {| ev_key := t_key t; ev_in := t_in t; ev_abort := is_rerun (snd r); ev_skip := t_skip t |}
+                            :: events_of ts' rs'
     | _, _ => []
     end.
 
